@@ -226,7 +226,7 @@ Qed.
 (* ---- the last line has no newline ------------------------------------------------------------------------------ *)
 Definition root_rule : rule := mkRule s_root [[IRef n_document]].
 
-Lemma root_finish R : gbnf_finish false (runf (top R) L_root) = Some (R ++ [root_rule]).
+Lemma root_finish R : gbnf_finish (runf (top R) L_root) = Some (R ++ [root_rule]).
 Proof. vm_compute. reflexivity. Qed.
 
 (* ---- no NUL in the text -------------------------------------------------------------------------------------- *)
@@ -319,25 +319,27 @@ Proof.
   destruct (safe_schema_parts _ _ H) as [_ _ _ Hfn Hsn _ Hsc].
   apply andb_true_iff in Hsn as [Hsn Hup].
   unfold compile_schema. apply forallb_join; [reflexivity|]. rewrite schema_lines_eq.
-  cbn [app forallb]. rewrite forallb_app. cbn [forallb]. rewrite andb_true_r.
-  apply andb_true_iff. split.
-  { rewrite forallb_app, comment_safe_nz by exact Hsn. reflexivity. }
-  unfold mid_lines. rewrite !forallb_app. cbn [forallb app].
+  rewrite forallb_app. apply andb_true_iff. split; [|reflexivity].
+  cbn [forallb]. apply andb_true_iff. split.
+  { rewrite forallb_app, (comment_safe_nz (sc_name s)) by exact Hsn. reflexivity. }
   assert (Hf : forallb (forallb nz) (map field_line (sc_fields s)) = true).
   { apply forallb_forall. intros l Hl. apply in_map_iff in Hl as (f & <- & Hf).
     unfold field_line. rewrite !forallb_app.
-    rewrite name_ok_nz by (apply (proj1 (forallb_forall _ _) Hnames); unfold rule_names; apply in_map; exact Hf).
-    rewrite lit_plain_nz by exact (proj1 (forallb_forall _ _) Hfn f Hf).
-    rewrite pattern_nz; [reflexivity| |exact (proj1 (forallb_forall _ _) Hsc f Hf)].
+    rewrite (name_ok_nz (rule_name_of f)) by (apply (proj1 (forallb_forall _ _) Hnames); unfold rule_names; apply in_map; exact Hf).
+    rewrite (lit_plain_nz (fd_name f)) by exact (proj1 (forallb_forall _ _) Hfn f Hf).
+    rewrite (pattern_nz f); [reflexivity| |exact (proj1 (forallb_forall _ _) Hsc f Hf)].
     intro Er. pose proof (proj1 (forallb_forall _ _) Hz f Hf) as Q. cbn beta in Q. rewrite Er in Q. exact Q. }
-  rewrite Hf. cbn [andb].
   assert (Hr : forallb (forallb nz) (if is_nil (sc_fields s) then [L_content_nf] else [refs_line s; L_content_f]) = true).
-  { destruct (is_nil (sc_fields s)); [reflexivity|]. cbn [forallb]. rewrite andb_true_r.
+  { destruct (is_nil (sc_fields s)); [reflexivity|]. cbn [forallb]. apply andb_true_iff. split; [|reflexivity].
     unfold refs_line. rewrite !forallb_app. rewrite forallb_join; [reflexivity|reflexivity|].
     apply forallb_forall. intros n Hn. apply name_ok_nz. exact (proj1 (forallb_forall _ _) Hnames n Hn). }
-  rewrite Hr. cbn [andb].
-  destruct env; [|reflexivity]. cbn [forallb]. unfold env_start_line. rewrite !forallb_app.
-  cbn [negb orb] in Hup. rewrite lit_plain_nz by exact Hup. reflexivity.
+  assert (Hy : forallb (forallb nz) (if env then [env_start_line s; L_env_end; []; L_meta_block; L_meta_content;
+                                                  L_meta_field; []; L_doc_env] else [L_doc_noenv]) = true).
+  { destruct env; [|reflexivity]. cbn [forallb]. apply andb_true_iff. split; [|reflexivity].
+    unfold env_start_line. rewrite !forallb_app.
+    cbn [negb orb] in Hup. rewrite (lit_plain_nz (py_upper (sc_name s) (sc_upper s))) by exact Hup. reflexivity. }
+  unfold mid_lines. rewrite !forallb_app.
+  repeat (apply andb_true_iff; split); try reflexivity; assumption.
 Qed.
 
 (* ---- the grammar the recogniser returns -------------------------------------------------------------------------- *)
@@ -388,9 +390,13 @@ Proof.
     cbn [lines_rules]. unfold line_out, env_start_rule, rule_of_line. rewrite Ex. reflexivity. }
   (* glue *)
   set (X := if is_nil (sc_fields s) then [L_content_nf] else [refs_line s; L_content_f]) in *.
-  set (Y := if env then _ else [L_doc_noenv]) in *.
-  set (GX := if is_nil (sc_fields s) then _ else _) in *.
-  set (GY := if env then _ else [rule_of_line L_doc_noenv]) in *.
+  set (Y := if env then [env_start_line s; L_env_end; []; L_meta_block; L_meta_content; L_meta_field; []; L_doc_env]
+            else [L_doc_noenv]) in *.
+  set (GX := if is_nil (sc_fields s) then [rule_of_line L_content_nf]
+             else [refs_rule (rule_names s); rule_of_line L_content_f]) in *.
+  set (GY := if env then [env_start_rule s; rule_of_line L_env_end; rule_of_line L_meta_block;
+                          rule_of_line L_meta_content; rule_of_line L_meta_field; rule_of_line L_doc_env]
+             else [rule_of_line L_doc_noenv]) in *.
   replace ([[]; L_ws; []] ++ map field_line (sc_fields s) ++ [[]] ++ X ++ [[]] ++ Y ++ [[]])
     with ([[]; L_ws; []] ++ map field_line (sc_fields s) ++ ([[]] ++ X ++ [[]]) ++ (Y ++ [[]]))
     by (rewrite <- !app_assoc; reflexivity).
@@ -409,7 +415,7 @@ Proof.
   change gbnf_schema_line_sep with [c_nl]. rewrite join_nl_snoc.
   unfold unlines. cbn [flat_map]. fold (unlines (mid_lines s env)).
   destruct (safe_schema_parts _ _ H) as [_ _ _ _ Hsn _ _]. apply andb_true_iff in Hsn as [Hsn _].
-  rewrite !run_app, header_run by (apply comment_safe_nonl; exact Hsn).
+  do 2 rewrite run_app. rewrite header_run by (apply comment_safe_nonl; exact Hsn).
   rewrite (run_lines _ _ _ (mid_lines_rules _ _ H)). rewrite root_finish. cbn [app].
   f_equal. unfold grammar_of. rewrite !app_assoc. rewrite removelast_last. reflexivity.
 Qed.
